@@ -2,22 +2,10 @@
    the ones the model uses. *)
 From CV Require Import Model.Base Model.Effector Pins.
 
-Lemma pin_eff_init_false_ok :
-  pin_eff_init_false = [s_allow_override; s_allow_and_deny; s_priority].
-Proof. reflexivity. Qed.
-Lemma pin_eff_init_true_ok : pin_eff_init_true = [s_deny_override].
-Proof. reflexivity. Qed.
-Lemma pin_eff_init_other_ok : pin_eff_init_other = [].
-Proof. reflexivity. Qed.
-Lemma pin_eff_push_exprs_ok :
-  pin_eff_push_exprs = [s_allow_override; s_allow_and_deny; s_deny_override; s_priority].
-Proof. reflexivity. Qed.
+(* The SYNTACTIC pins of round 1 (the order of the expression literals compared in push_effect, the arms of the
+   initial-value match) were dropped: a harmless reordering of branches would have broken them, and everything they
+   guarded is now covered semantically by PinChecks/PcEffectorGen.v, which proves the function TRANSLATED from
+   src/effector.rs on every run equal to the model for every state, effect, expression text and capacity.
+   What stays: the two assertions of the source are present (a missing `assert!` would turn a panic into a value). *)
 Lemma pin_eff_asserts_ok : pin_eff_cap_assert = true /\ pin_eff_next_assert = true.
 Proof. split; reflexivity. Qed.
-(* init_res agrees with the pinned table *)
-Lemma pin_eff_init_res_ok :
-  forall r, init_res r = existsb (teqb (erule_text r)) pin_eff_init_true.
-Proof. destruct r; vm_compute; reflexivity. Qed.
-
-(* (no body-hash pins for effector.rs: its functions are TRANSLATED on every run and proved equal to the
-   model in PcEffectorGen.v, which a meaning-preserving rewrite keeps) *)
